@@ -366,10 +366,20 @@ def analyse_function(relpath, fn, loader, iterable_params):
     # appending to its argument): the object may be a seed / default allocated once per application or per operator value and
     # handed to every subscription (scan(accumulator, seed)) - state then survives from one subscription to the next although no
     # variable is assigned.  Functions of these modules never do so on the unchanged tree.
+    handed_on = set()  # functions / lambdas that are passed to someone as an argument (callbacks of other operators)
+    for n in ast.walk(fn):
+        if isinstance(n, ast.Call):
+            for a in list(n.args) + [k.value for k in n.keywords]:
+                if isinstance(a, ast.Name):
+                    handed_on.add(a.id)
+                elif isinstance(a, ast.Lambda):
+                    handed_on.add(id(a))
     for sc in all_scopes(root):
         node = sc.node
         if not isinstance(node, (ast.FunctionDef, ast.Lambda)):
             continue
+        if not ((isinstance(node, ast.FunctionDef) and node.name in handed_on) or id(node) in handed_on):
+            continue  # a helper the module calls itself with its own (per-subscription) objects is not a callback of another operator
         ps = {a.arg for a in node.args.posonlyargs + node.args.args + node.args.kwonlyargs} - {"self", "cls"}
         nodes = list(own_nodes(node)) if not isinstance(node, ast.Lambda) else list(ast.walk(node.body))
         for n in nodes:
